@@ -39,6 +39,17 @@ TIE_WHAT = ("id=address-tiebreak equal-priority waiters of the same instant are 
             "counts / delay patterns / orders")
 
 
+MAX_REPORTS = 3
+
+
+def report(chk, what, text, found):
+    """at most MAX_REPORTS VIOLATION lines per run; further failing runs are only counted"""
+    if len(chk.violations) < MAX_REPORTS:
+        chk.violation(what, text, found)
+    else:
+        chk.suppressed = getattr(chk, "suppressed", 0) + 1
+
+
 class Runner:
     def __init__(self, chk, c_exe, lean_exe):
         self.chk, self.c_exe, self.lean_exe = chk, c_exe, lean_exe
@@ -136,23 +147,31 @@ def run(chk):
     for path in expcorr.corpus_files():
         name = os.path.basename(path)
         expect, scs = expcorr.read_corpus(path)
-        results = []
+        results, file_bad = [], False
         for sc in scs:
             res = rn.run_par(sc)
             rn.evals += 1
             n_corpus += 1
-            results.append((sc, res))
             if res["problems"]:
-                chk.violation("corpus %s: %s" % (name, "; ".join(res["problems"][:3])), replay_text([sc.line()], res), True)
-            elif sc.mode == "par" and not res["replay"].startswith("replay ok"):
-                chk.violation("corpus %s: the observed run is not a behaviour of CimbaModel.Experiment.Model: %s; the counters and "
-                              "Monitor.C19 accept the run" % (name, res["replay"]), replay_text([sc.line()], res), False)
+                if not file_bad:
+                    report(chk, "corpus %s: %s" % (name, "; ".join(res["problems"][:3])), replay_text([sc.line()], res), True)
+                file_bad = True
+                continue
+            results.append((sc, res))
+            if sc.mode == "par" and not res["replay"].startswith("replay ok"):
+                report(chk, "corpus %s: the observed run is not a behaviour of CimbaModel.Experiment.Model: %s; the counters and "
+                       "Monitor.C19 accept the run" % (name, res["replay"]), replay_text([sc.line()], res), False)
             else:
                 rn.validated += 1
                 if sc.mode == "par":
                     stats.append(dict(expcorr.assignment_sig(res["r"]), n=sc.n, W=res["r"]["P"][0], size=sc.size, kinds=sc.kinds,
                                       pat=sc.pat))
+        if file_bad or not results:
+            continue
         vecs = {expcorr.digests(res["r"]) for _, res in results}
+
+        def first_diff():
+            return next(i for i in range(scs[0].n) if len({res["r"]["D"].get(i, ("?",))[0] for _, res in results}) > 1)
         if name == "address-tiebreak.txt":
             if len(vecs) > 1:
                 orders = ["%s: %s" % (sc.line(), " ".join(res["r"]["D"][i][1] for i in sorted(res["r"]["D"]) if i % 2))
@@ -161,33 +180,27 @@ def run(chk):
                     chk.known_finding(TIE_WHAT + " (replay corpus/exp/address-tiebreak.txt: %d distinct result vectors over %d runs)"
                                       % (len(vecs), len(results)))
                 else:
-                    chk.violation(TIE_WHAT, replay_text([sc.line() for sc, _ in results], None,
-                                                        "service order (ab / ba) of the odd trials per run:\n" + "\n".join(orders)), True)
+                    report(chk, TIE_WHAT, replay_text([sc.line() for sc, _ in results], None,
+                                                      "service order (ab / ba) of the odd trials per run:\n" + "\n".join(orders)), True)
             else:
                 chk.notes.append("address-tiebreak scenario did not produce differing results in this run (allocator dependent)")
-        elif name == "flip-cache.txt":
-            if len(vecs) > 1:
-                first = next(i for i in range(scs[0].n) if len({res["r"]["D"][i][0] for _, res in results}) > 1)
-                chk.violation(FLIP_WHAT + "; first differing trial: %d" % first,
-                              replay_text([sc.line() for sc, _ in results], None,
-                                          "digest of trial %d per run: %s" % (first, ", ".join(res["r"]["D"][first][0] for _, res in results))),
-                              True)
-            elif leaks:
-                chk.notes.append("flip cache classified Leaks but the corpus scenario showed no difference")
-        else:
-            if len(vecs) > 1 and expect == "same":
-                first = next(i for i in range(scs[0].n) if len({res["r"]["D"][i][0] for _, res in results}) > 1)
-                chk.violation("corpus %s: result digests depend on the schedule / order; first differing trial %d" % (name, first),
-                              replay_text([sc.line() for sc, _ in results], None,
-                                          "digest of trial %d per run: %s" % (first, ", ".join(res["r"]["D"][first][0] for _, res in results))),
-                              True)
-            if name == "logger-mask-persists.txt":
-                aux = {tuple(res["r"]["D"][i][1] for i in sorted(res["r"]["D"])) for _, res in results}
-                chk.cov["logger_mask_persistence"] = (
-                    "observed: bytes logged by trials that do not set their flags differ between runs (%d distinct vectors); "
-                    "digests identical" % len(aux)) if len(aux) > 1 else "not observed in this run"
+        elif len(vecs) > 1 and expect == "same":
+            i = first_diff()
+            per_run = "digest of trial %d per run: %s" % (i, ", ".join(res["r"]["D"].get(i, ("?",))[0] for _, res in results))
+            if name == "flip-cache.txt" and leaks:
+                what = FLIP_WHAT + "; first differing trial: %d" % i
+            else:
+                what = "corpus %s: result digests depend on the schedule / order; first differing trial %d" % (name, i)
+            report(chk, what, replay_text([sc.line() for sc, _ in results], None, per_run), True)
+        elif name == "flip-cache.txt" and leaks:
+            chk.notes.append("flip cache classified Leaks but the corpus scenario showed no difference")
+        if name == "logger-mask-persists.txt":
+            aux = {tuple(res["r"]["D"][i][1] for i in sorted(res["r"]["D"])) for _, res in results}
+            chk.cov["logger_mask_persistence"] = (
+                "observed: bytes logged by trials that do not set their flags differ between runs (%d distinct vectors); "
+                "digests identical" % len(aux)) if len(aux) > 1 else "not observed in this run"
     # ---- generated scenarios ---------------------------------------------
-    total = 600 if quick else 12000
+    total = 1500 if quick else 12000
     scs = expcorr.generate(chk.seed, total, flips_ok)
     if not quick:
         scs += expcorr.stress(chk.seed, 400)
@@ -229,9 +242,11 @@ def run(chk):
         else:
             rn.validated += 1
             stats.append(dict(expcorr.assignment_sig(res["r"]), n=sc.n, W=res["r"]["P"][0], size=sc.size, kinds=sc.kinds, pat=sc.pat))
-    for sc, res, probs, found in bad[:3]:
+    for sc, res, probs, found in bad:
         lines = [sc.line()] + ([sc.line("seq")] if sc.kinds else [])
-        chk.violation("; ".join(probs[:3]), replay_text(lines, res), found)
+        report(chk, "; ".join(probs[:3]), replay_text(lines, res), found)
+    if bad:
+        chk.cov["failing_runs"] = len(bad)
     # ---- thorough: sanitizer build on a slice -----------------------------
     if not quick and not chk.violations:
         san = vlib.build_impl("san")
@@ -241,7 +256,7 @@ def run(chk):
             res = rs.run_par(sc)
             rn.evals += 1
             if res["problems"]:
-                chk.violation("sanitizer build: " + "; ".join(res["problems"][:3]), replay_text([sc.line()], res), True)
+                report(chk, "sanitizer build: " + "; ".join(res["problems"][:3]), replay_text([sc.line()], res), True)
                 break
             rn.validated += 1
     # ---- coverage ---------------------------------------------------------
@@ -271,12 +286,18 @@ def run(chk):
         "runs_with_fewer_trials_than_workers": sum(1 for s in stats if s["n"] < s["W"]),
         "sequential_references": len(rn.refs), "corpus_runs": n_corpus, "coin_flips_included": flips_ok,
     }
+    if getattr(chk, "suppressed", 0):
+        chk.cov["further_failing_runs_not_reported"] = chk.suppressed
     chk.cov["samples"] = [{"scenario": sc.line(), "replay": res["replay"], "threads_used": expcorr.assignment_sig(res["r"])["threads"]}
                           for sc, res in results[:3]]
     # ---- proof or tie broken: look for a concrete failing input ------------
     if not proved and not chk.violations:
         found = False
-        for sc in expcorr.stress(chk.seed + 1, 400 if quick else 4000):
+        import time
+        t_end = time.time() + (40 if quick else 600)
+        for sc in expcorr.stress(chk.seed + 1, 4000):
+            if time.time() > t_end:
+                break
             res = rn.run_par(sc)
             rn.evals += 1
             if res["problems"]:
